@@ -182,3 +182,32 @@ contract("praatio.pitch_and_intensity.detectPitchErrors", serves=["C20"], spec_m
                                     maxJumpThreshold=S.real("maxJumpThreshold"), tgToMark=None),
          requires=["maxJumpThreshold != 0"],
          spec="spec.scalars.detectPitchErrors", frame=["pitchList"])
+
+# ---- C19: modifySubtiers addresses one intermediate tier of a container (hierarchy of known shape: 0..3 point tiers
+# in the addressed tier, 0 or 2 in another one; every entry list, time and value symbolic, modFunc arbitrary)
+KG = "praatio.data_classes.klattgrid."
+KPT2 = KG + "KlattPointTier"
+
+
+def kpt(S, name):
+    return S.obj(KPT2, name=name, _entries=S.list(name + ".entries", "pair"),
+                 minTimestamp=S.real(name + ".min"), maxTimestamp=S.real(name + ".max"))
+
+
+def kit(S, name, n):
+    names = ["%s_%d" % (name, i) for i in range(n)]
+    return S.obj(KG + "KlattIntermediateTier", name=name, tierNameList=S.pylist(names),
+                 tierDict={nm: kpt(S, nm) for nm in names}, minTimestamp=S.real(name + ".min"),
+                 maxTimestamp=S.real(name + ".max"))
+
+
+def container(S, cfg):
+    kits = [("oral", cfg["n_addressed"]), ("nasal", cfg["n_other"])]
+    return S.obj(KG + "KlattContainerTier", name="formants", tierNameList=S.pylist([k for k, _ in kits]),
+                 tierDict={k: kit(S, k, n) for k, n in kits}, minTimestamp=S.real("c.min"), maxTimestamp=S.real("c.max"))
+
+
+contract(KG + "KlattContainerTier.modifySubtiers", serves=["C19"], spec_module="spec.scalars",
+         configs={"n_addressed": [0, 1, 2, 3], "n_other": [0, 2], "tierName": ["oral", "missing"]},
+         inputs=lambda S, cfg: dict(self=container(S, cfg), tierName=cfg["tierName"], modFunc=S.func("F")),
+         spec="spec.scalars.KlattContainerTier_modifySubtiers")
